@@ -50,9 +50,23 @@ theorem fastFindFrom_some (L : List Rx.Lit) (hay : Bytes) : ∀ (fuel pos i : Na
       · exact ih _ _ h
       · cases h
 
-/-- the built matcher meets the matcher-level contract for LF, given context independence on the line
-windows that pass the guard `G` -/
-theorem bridge_contract_gen (isWord : Nat → Bool) (rcfg : Rx.Config) (pats : List Bytes) (translated : Rx.Hir)
+/-- a `Confirmed` answer is only given by a matcher built without `verify_on_line` (/repo 4165f41) -/
+theorem confirmed_not_verify (m : Rx.MatcherM) (shortest : Bytes → Option Nat)
+    (h : ∃ hay i, (bridge m shortest).findCandidateLine hay = some (.confirmed i)) : m.verifyOnLine = false := by
+  obtain ⟨hay, i, h⟩ := h
+  simp only [bridge, Rx.MatcherM.findCandidateLine] at h
+  cases hf : m.fastLits with
+  | some Ls => rw [hf] at h; cases hff : Rx.fastFind Ls hay <;> simp [hff, convCand] at h
+  | none =>
+    rw [hf] at h
+    cases hv : m.verifyOnLine with
+    | false => rfl
+    | true => rw [hv] at h; cases hs : shortest hay <;> simp [hs, convCand] at h
+
+/-- The built matcher meets the matcher-level contract for LF, given on the line windows that pass the guard `G`:
+`hlift` — a match of the line alone is a match in the haystack (always needed: no false negatives) — and, only for a
+matcher that answers `Confirmed` (`verifyOnLine = false`), `hlower` — the converse. -/
+theorem bridge_contract_core (isWord : Nat → Bool) (rcfg : Rx.Config) (pats : List Bytes) (translated : Rx.Hir)
     (accelerated : Bool) (optimize : Rx.Seq → Rx.Seq) (norm : Rx.Hir → Rx.Hir) (shortest : Bytes → Option Nat)
     (m : Rx.MatcherM) (hb : rcfg.build pats translated accelerated optimize norm = .ok m)
     (hnorm : ∀ h hay s e, Rx.Matches (Rx.lookAt isWord) (norm h) hay s e ↔ Rx.Matches (Rx.lookAt isWord) h hay s e)
@@ -61,10 +75,14 @@ theorem bridge_contract_gen (isWord : Nat → Bool) (rcfg : Rx.Config) (pats : L
     (hterm : rcfg.lineTerm = some (.byte 10))
     (hlits : ∀ L, m.fastLits = some L → ∀ l ∈ L, l.bytes ≠ [] ∧ 10 ∉ l.bytes)
     (G : Bytes → Nat → Nat → Prop)
-    (hctx : ∀ (hay : Bytes) (w c : Nat), G hay w c → (w = 0 ∨ hay[w - 1]? = some 10) →
+    (hlift : ∀ (hay : Bytes) (w c : Nat), G hay w c → (w = 0 ∨ hay[w - 1]? = some 10) →
       (w + c = hay.length ∨ hay[w + c]? = some 10) → w + c ≤ hay.length → ∀ s e, w ≤ s → s ≤ e → e ≤ w + c →
-      (Rx.Matches (Rx.lookAt isWord) m.hir hay s e ↔
-        Rx.Matches (Rx.lookAt isWord) m.hir ((hay.drop w).take c) (s - w) (e - w))) :
+      Rx.Matches (Rx.lookAt isWord) m.hir ((hay.drop w).take c) (s - w) (e - w) →
+      Rx.Matches (Rx.lookAt isWord) m.hir hay s e)
+    (hlower : m.verifyOnLine = false → ∀ (hay : Bytes) (w c : Nat), G hay w c → (w = 0 ∨ hay[w - 1]? = some 10) →
+      (w + c = hay.length ∨ hay[w + c]? = some 10) → w + c ≤ hay.length → ∀ s e, w ≤ s → s ≤ e → e ≤ w + c →
+      Rx.Matches (Rx.lookAt isWord) m.hir hay s e →
+      Rx.Matches (Rx.lookAt isWord) m.hir ((hay.drop w).take c) (s - w) (e - w)) :
     MatchContract 10 (bridge m shortest) (Rx.Matches (Rx.lookAt isWord) m.hir) G := by
   have hno : ∀ {hay s e}, Rx.Matches (Rx.lookAt isWord) m.hir hay s e → Rx.NoByteIn 10 hay s e := by
     intro hay s e hm
@@ -82,7 +100,8 @@ theorem bridge_contract_gen (isWord : Nat → Bool) (rcfg : Rx.Config) (pats : L
   · intro hay s e hm x h1 h2; exact hno hm x h1 h2
   · intro hay i h; rw [bridge_shortest] at h; exact heng.some_ hay i h
   · intro hay h; rw [bridge_shortest] at h; exact heng.none_ hay h
-  · exact hctx
+  · exact hlift
+  · intro hconf; exact hlower (confirmed_not_verify m shortest hconf)
   · intro hay h s e hm
     obtain ⟨c, h1, _⟩ := hcand hm
     simp only [bridge] at h
@@ -94,14 +113,30 @@ theorem bridge_contract_gen (isWord : Nat → Bool) (rcfg : Rx.Config) (pats : L
     | some Ls => rw [hf] at h; cases hff : Rx.fastFind Ls hay <;> simp [hff, convCand] at h
     | none =>
       rw [hf] at h
-      cases hs : shortest hay with
-      | none => simp [hs] at h
-      | some k => simp [hs, convCand] at h; subst h; rfl
+      cases hv : m.verifyOnLine with
+      | true => rw [hv] at h; cases hs : shortest hay <;> simp [hs, convCand] at h
+      | false =>
+        rw [hv] at h
+        cases hs : shortest hay with
+        | none => simp [hs] at h
+        | some k => simp [hs, convCand] at h; subst h; rfl
   · intro hay i h
     simp only [bridge, Rx.MatcherM.findCandidateLine] at h
     cases hf : m.fastLits with
-    | none => rw [hf] at h; cases hs : shortest hay <;> simp [hs, convCand] at h
+    | none =>
+      rw [hf] at h
+      cases hv : m.verifyOnLine with
+      | false => rw [hv] at h; cases hs : shortest hay <;> simp [hs, convCand] at h
+      | true =>
+        -- the end of the engine's match, to be judged on the line by the searcher
+        rw [hv] at h
+        right
+        rw [bridge_shortest]
+        cases hs : shortest hay with
+        | none => simp [hs] at h
+        | some k => simp [hs, convCand] at h; subst h; rfl
     | some Ls =>
+      left
       rw [hf] at h
       cases hff : Rx.fastFind Ls hay with
       | none => simp [hff] at h
@@ -124,6 +159,47 @@ theorem bridge_contract_gen (isWord : Nat → Bool) (rcfg : Rx.Config) (pats : L
           rw [hcand_eq] at hc1
           cases hc1
           exact hc2 x h1 h2
+
+/-- the built matcher meets the matcher-level contract for LF, given context independence on the line
+windows that pass the guard `G` -/
+theorem bridge_contract_gen (isWord : Nat → Bool) (rcfg : Rx.Config) (pats : List Bytes) (translated : Rx.Hir)
+    (accelerated : Bool) (optimize : Rx.Seq → Rx.Seq) (norm : Rx.Hir → Rx.Hir) (shortest : Bytes → Option Nat)
+    (m : Rx.MatcherM) (hb : rcfg.build pats translated accelerated optimize norm = .ok m)
+    (hnorm : ∀ h hay s e, Rx.Matches (Rx.lookAt isWord) (norm h) hay s e ↔ Rx.Matches (Rx.lookAt isWord) h hay s e)
+    (hopt : C11.OptimizeCert optimize m.hir ((rcfg.lineTerm.map Rx.LineTerm.bytes).getD []))
+    (heng : C11.EngineSpec (Rx.lookAt isWord) m.hir shortest)
+    (hterm : rcfg.lineTerm = some (.byte 10))
+    (hlits : ∀ L, m.fastLits = some L → ∀ l ∈ L, l.bytes ≠ [] ∧ 10 ∉ l.bytes)
+    (G : Bytes → Nat → Nat → Prop)
+    (hctx : ∀ (hay : Bytes) (w c : Nat), G hay w c → (w = 0 ∨ hay[w - 1]? = some 10) →
+      (w + c = hay.length ∨ hay[w + c]? = some 10) → w + c ≤ hay.length → ∀ s e, w ≤ s → s ≤ e → e ≤ w + c →
+      (Rx.Matches (Rx.lookAt isWord) m.hir hay s e ↔
+        Rx.Matches (Rx.lookAt isWord) m.hir ((hay.drop w).take c) (s - w) (e - w))) :
+    MatchContract 10 (bridge m shortest) (Rx.Matches (Rx.lookAt isWord) m.hir) G :=
+  bridge_contract_core isWord rcfg pats translated accelerated optimize norm shortest m hb hnorm hopt heng hterm hlits G
+    (fun hay w c hg hb1 ha hle s e h1 h2 h3 => (hctx hay w c hg hb1 ha hle s e h1 h2 h3).2)
+    (fun _ hay w c hg hb1 ha hle s e h1 h2 h3 => (hctx hay w c hg hb1 ha hle s e h1 h2 h3).1)
+
+/-- **A matcher built with `verify_on_line`** (its look-arounds can see beyond the line; /repo 4165f41): only the
+"no false negative" half of context independence is needed — the searcher judges every candidate line on its own, as
+the slow path does. -/
+theorem bridge_contract_verify (isWord : Nat → Bool) (rcfg : Rx.Config) (pats : List Bytes) (translated : Rx.Hir)
+    (accelerated : Bool) (optimize : Rx.Seq → Rx.Seq) (norm : Rx.Hir → Rx.Hir) (shortest : Bytes → Option Nat)
+    (m : Rx.MatcherM) (hb : rcfg.build pats translated accelerated optimize norm = .ok m)
+    (hnorm : ∀ h hay s e, Rx.Matches (Rx.lookAt isWord) (norm h) hay s e ↔ Rx.Matches (Rx.lookAt isWord) h hay s e)
+    (hopt : C11.OptimizeCert optimize m.hir ((rcfg.lineTerm.map Rx.LineTerm.bytes).getD []))
+    (heng : C11.EngineSpec (Rx.lookAt isWord) m.hir shortest)
+    (hterm : rcfg.lineTerm = some (.byte 10))
+    (hlits : ∀ L, m.fastLits = some L → ∀ l ∈ L, l.bytes ≠ [] ∧ 10 ∉ l.bytes)
+    (hv : m.verifyOnLine = true)
+    (G : Bytes → Nat → Nat → Prop)
+    (hlift : ∀ (hay : Bytes) (w c : Nat), G hay w c → (w = 0 ∨ hay[w - 1]? = some 10) →
+      (w + c = hay.length ∨ hay[w + c]? = some 10) → w + c ≤ hay.length → ∀ s e, w ≤ s → s ≤ e → e ≤ w + c →
+      Rx.Matches (Rx.lookAt isWord) m.hir ((hay.drop w).take c) (s - w) (e - w) →
+      Rx.Matches (Rx.lookAt isWord) m.hir hay s e) :
+    MatchContract 10 (bridge m shortest) (Rx.Matches (Rx.lookAt isWord) m.hir) G :=
+  bridge_contract_core isWord rcfg pats translated accelerated optimize norm shortest m hb hnorm hopt heng hterm hlits G
+    hlift (fun h => by rw [hv] at h; exact Bool.noConfusion h)
 
 /-- **the built matcher meets the matcher-level contract** (LF terminator, look-arounds that are LF anchors or
 ASCII word assertions, well-formed prefilter literals); no guard on the windows -/
